@@ -241,6 +241,10 @@ def run(ctx):
             try:
                 with torch.no_grad():
                     first_batch = None
+                    reuse_buffer = bool(r.random() < 0.3)
+                    buf = None
+                    if reuse_buffer:
+                        ctx.count("sequences_through_one_buffer")
                     for ci in range(nctx):
                         dbg = bool(r.random() < 0.1)  # debug=True only prints; it must not change what is computed
                         if dbg:
@@ -261,8 +265,14 @@ def run(ctx):
                                     x = x / x.abs().max() * qmax_of(aq) if qmax_of(aq) < 1e3 else x  # range == qmax -> scale 1.0
                                     mag = float(x.abs().max())
                                 x = x.to(wd)
+                                if reuse_buffer:
+                                    # a preallocated input buffer refilled in place: the same tensor object carries every batch
+                                    if buf is None:
+                                        buf = torch.empty_like(x)
+                                    buf.copy_(x)
+                                    x = buf
                                 if first_batch is None:
-                                    first_batch = x
+                                    first_batch = x.clone()
                                 mags.append(mag)
                                 model(x)
                         rec.momentum = None
